@@ -1,4 +1,4 @@
-\* thorough: strings <= 5 over 8 letters, names <= 4 over 9 letters, triples of 22 token kinds,
+\* thorough: strings <= 5 over 8 letters, names <= 4 over 9 letters, triples of 23 token kinds,
 \* nesting depth 2, six option sets (all 32 on the real code), renderings of strings/names <= 3
 INIT GenInit
 NEXT GenNext
@@ -9,7 +9,7 @@ CONSTANTS
   NameAlphabet = {35, 47, 32, 97, 49, 40, 0, 127, 128}
   MaxStr = 5
   MaxName = 4
-  TokKinds = {"null", "true", "false", "int", "negint", "zero", "real", "negreal", "realdot", "name", "namedig", "emptyname", "str", "emptystr", "hexstr", "arr", "emptyarr", "dict", "emptydict", "ref", "nilarr", "nildict"}
+  TokKinds = {"null", "true", "false", "int", "negint", "zero", "real", "negreal", "realdot", "name", "namedig", "emptyname", "str", "emptystr", "hexstr", "arr", "emptyarr", "dict", "emptydict", "ref", "refmax", "nilarr", "nildict"}
   MaxToks = 3
   OptSets = {{}, {"Pretty"}, {"ContentStream"}, {"DictTypes", "TextStringUtf8"}, {"Pretty", "TrimStandardFonts"}, {"Pretty", "ContentStream", "DictTypes", "TextStringUtf8", "TrimStandardFonts"}}
   RenderStrMax = 3
